@@ -334,12 +334,42 @@ fn check_unlisted_consts(cx: &Cx, sink: &mut Sink) -> (usize, Vec<String>) {
         n.strip_suffix("reserved").map(|x| x.to_string()).unwrap_or(n)
     };
     let mut judged = 0;
-    for l in out.lines() {
-        let f: Vec<&str> = l.split_whitespace().collect();
-        if f.len() != 4 || f[0] != "CONST" {
+    let found: Vec<(String, String, u64)> = out
+        .lines()
+        .filter_map(|l| {
+            let f: Vec<&str> = l.split_whitespace().collect();
+            (f.len() == 4 && f[0] == "CONST").then(|| (f[1].to_string(), f[2].to_string(), f[3].parse::<u64>().unwrap_or(u64::MAX)))
+        })
+        .collect();
+    // "the Display / Debug text is that constant's name if one is defined": a constant declared anywhere defines a name
+    // for its value, so the text of that value must be the name of a constant with this value
+    for (ty, name, val) in &found {
+        let r = cx.regs.iter().find(|r| r.reg.ty == ty).unwrap();
+        if *val >> r.reg.bits != 0 {
             continue;
         }
-        let (ty, name, val) = (f[1], f[2], f[3].parse::<u64>().unwrap_or(u64::MAX));
+        let names: Vec<&str> = found.iter().filter(|(t, _, v)| t == ty && v == val).map(|(_, n, _)| n.as_str()).chain(r.consts.iter().filter(|(_, v)| v == val).map(|(n, _)| *n)).collect();
+        for (what, fmt) in [("Display", &r.display), ("Debug", &r.debug)] {
+            if fmt.0 != Fmt::Named {
+                continue;
+            }
+            sink.evals += 1;
+            match guarded(|| (fmt.1)(*val)) {
+                Ok(t) => {
+                    if !names.iter().any(|n| *n == t) {
+                        sink.violation(
+                            format!("const {}::{}", ty, name),
+                            format!("{} of {}({}) is {:?} although the constant {}::{} is defined for that value", what, ty, val, t, ty, name),
+                            json!({"kind":"unlisted-const","type":ty,"name":name}),
+                        );
+                    }
+                }
+                Err(p) => sink.violation(format!("const {}::{}", ty, name), format!("{} of {}({}) panics: {}", what, ty, val, p), json!({"kind":"unlisted-const","type":ty,"name":name})),
+            }
+        }
+    }
+    for (ty, name, val) in &found {
+        let (ty, name, val) = (ty.as_str(), name.as_str(), *val);
         let n = strip(name);
         let r = cx.regs.iter().find(|r| r.reg.ty == ty).unwrap();
         let mut expected: Vec<(u64, String)> = Vec::new();
